@@ -63,6 +63,7 @@ struct SO2t { template<class S> using G=manif::SO2<S>; template<class S> using T
   template<class R> static T<typename R::S> maketc(R& rec,int k){ typedef typename R::S S; return T<S>(rec.rat(KW[k][0],10)); }
   template<class S,class GA,class GB,class MM> static G<S> assemble(const GA& A,const GB& B,const MM& Mp){ S re=A.coeffs()(0)*B.coeffs()(0)-A.coeffs()(1)*B.coeffs()(1), im=A.coeffs()(0)*B.coeffs()(1)+A.coeffs()(1)*B.coeffs()(0); return G<S>(re,im); }
   template<class J,class GJ,class TJ,class MM> static GJ fromM(const GJ& X,const TJ& d,const MM& Mp){ J re=X.coeffs()(0)-X.coeffs()(1)*d.coeffs()(0), im=X.coeffs()(1)+X.coeffs()(0)*d.coeffs()(0); return GJ(re,im); }
+  template<class S,class XX> static S erotsq(const XX& X){ return X.coeffs()(1)*X.coeffs()(1); } template<class S,class XX> static S ew(const XX& X){ return X.coeffs()(0); }
   template<class S,class X> static S rotsq(const X& t){ return t.coeffs()(0)*t.coeffs()(0); } enum{A=2}; template<class S,class X> static Mat<S,A> alg(const X& t){ Mat<S,A> m=hat<S>(t).template topLeftCorner<A,A>(); return m; } static const char* nm(){return "SO2";} enum{H=3,P=2,DoF=1,Rep=2};
   
   template<class R> static G<typename R::S> make(R& rec,const std::string& p,int w){ auto c=unitc(rec,p,w); return G<typename R::S>(c(0),c(1)); }
@@ -77,6 +78,7 @@ struct SE2t { template<class S> using G=manif::SE2<S>; template<class S> using T
   template<class R> static T<typename R::S> maketc(R& rec,int k){ typedef typename R::S S; auto v=cv(rec,k); return T<S>(v(0),v(1),rec.rat(KW[k][0],10)); }
   template<class S,class GA,class GB,class MM> static G<S> assemble(const GA& A,const GB& B,const MM& Mp){ S re=A.coeffs()(2)*B.coeffs()(2)-A.coeffs()(3)*B.coeffs()(3), im=A.coeffs()(2)*B.coeffs()(3)+A.coeffs()(3)*B.coeffs()(2); return G<S>(Mp(0,2),Mp(1,2),re,im); }
   template<class J,class GJ,class TJ,class MM> static GJ fromM(const GJ& X,const TJ& d,const MM& Mp){ J re=X.coeffs()(2)-X.coeffs()(3)*d.coeffs()(2), im=X.coeffs()(3)+X.coeffs()(2)*d.coeffs()(2); return GJ(Mp(0,2),Mp(1,2),re,im); }
+  template<class S,class XX> static S erotsq(const XX& X){ return X.coeffs()(3)*X.coeffs()(3); } template<class S,class XX> static S ew(const XX& X){ return X.coeffs()(2); }
   template<class S,class X> static S rotsq(const X& t){ return t.coeffs()(2)*t.coeffs()(2); } enum{A=3}; template<class S,class X> static Mat<S,A> alg(const X& t){ Mat<S,A> m=hat<S>(t).template topLeftCorner<A,A>(); return m; } static const char* nm(){return "SE2";} enum{H=3,P=2,DoF=3,Rep=4};
   
   template<class R> static G<typename R::S> make(R& rec,const std::string& p,int w){ typedef typename R::S S; S x=rec.var(p+"x",WV[w][0]),y=rec.var(p+"y",WV[w][1]); auto c=unitc(rec,p,w); return G<S>(x,y,c(0),c(1)); }
@@ -90,6 +92,7 @@ struct SO3t { template<class S> using G=manif::SO3<S>; template<class S> using T
   template<class R> static T<typename R::S> maketc(R& rec,int k){ typedef typename R::S S; Mat<S,3,1> w=cw(rec,k); return T<S>(w); }
   template<class S,class GA,class GB,class MM> static G<S> assemble(const GA& A,const GB& B,const MM& Mp){ Mat<S,4,1> qa=A.coeffs(), qb=B.coeffs(); Mat<S,4,1> c=qmul<S>(qa,qb); return G<S>(c); }
   template<class J,class GJ,class TJ,class MM> static GJ fromM(const GJ& X,const TJ& d,const MM& Mp){ Mat<J,4,1> q=X.coeffs(); Mat<J,3,1> w=d.coeffs(); Mat<J,4,1> c=qpert<J>(q,w); return GJ(c); }
+  template<class S,class XX> static S erotsq(const XX& X){ return X.coeffs().template head<3>().squaredNorm(); } template<class S,class XX> static S ew(const XX& X){ return X.coeffs()(3); }
   template<class S,class X> static S rotsq(const X& t){ return t.coeffs().squaredNorm(); } enum{A=3}; template<class S,class X> static Mat<S,A> alg(const X& t){ Mat<S,A> m=hat<S>(t).template topLeftCorner<A,A>(); return m; } static const char* nm(){return "SO3";} enum{H=4,P=3,DoF=3,Rep=4};
   
   template<class R> static G<typename R::S> make(R& rec,const std::string& p,int w){ typedef typename R::S S; Mat<S,4,1> q=unitq(rec,p,w); return G<S>(q); }
@@ -103,6 +106,7 @@ struct SE3t { template<class S> using G=manif::SE3<S>; template<class S> using T
   template<class R> static T<typename R::S> maketc(R& rec,int k){ typedef typename R::S S; Mat<S,6,1> c; c.template head<3>()=cv(rec,k); c.template tail<3>()=cw(rec,k); return T<S>(c); }
   template<class S,class GA,class GB,class MM> static G<S> assemble(const GA& A,const GB& B,const MM& Mp){ Mat<S,4,1> qa=A.coeffs().template segment<4>(3), qb=B.coeffs().template segment<4>(3); Mat<S,7,1> c; c.template head<3>()=Mp.template block<3,1>(0,3); c.template tail<4>()=qmul<S>(qa,qb); return G<S>(c); }
   template<class J,class GJ,class TJ,class MM> static GJ fromM(const GJ& X,const TJ& d,const MM& Mp){ Mat<J,4,1> q=X.coeffs().template segment<4>(3); Mat<J,3,1> w=d.coeffs().template tail<3>(); Mat<J,7,1> c; c.template head<3>()=Mp.template block<3,1>(0,3); c.template tail<4>()=qpert<J>(q,w); return GJ(c); }
+  template<class S,class XX> static S erotsq(const XX& X){ return X.coeffs().template segment<3>(3).squaredNorm(); } template<class S,class XX> static S ew(const XX& X){ return X.coeffs()(6); }
   template<class S,class X> static S rotsq(const X& t){ return t.coeffs().template tail<3>().squaredNorm(); } enum{A=4}; template<class S,class X> static Mat<S,A> alg(const X& t){ Mat<S,A> m=hat<S>(t).template topLeftCorner<A,A>(); return m; } static const char* nm(){return "SE3";} enum{H=4,P=3,DoF=6,Rep=7};
   
   template<class R> static G<typename R::S> make(R& rec,const std::string& p,int w){ typedef typename R::S S; Mat<S,7,1> c; c.template head<3>()=vec3(rec,p,WV[w]); c.template tail<4>()=unitq(rec,p,w); return G<S>(c); }
@@ -116,6 +120,7 @@ struct SE23t { template<class S> using G=manif::SE_2_3<S>; template<class S> usi
   template<class R> static T<typename R::S> maketc(R& rec,int k){ typedef typename R::S S; Mat<S,9,1> c; c.template head<3>()=cv(rec,k); c.template segment<3>(3)=cw(rec,k); c.template tail<3>()=cv(rec,(k+2)%4); return T<S>(c); }
   template<class S,class GA,class GB,class MM> static G<S> assemble(const GA& A,const GB& B,const MM& Mp){ Mat<S,4,1> qa=A.coeffs().template segment<4>(3), qb=B.coeffs().template segment<4>(3); Mat<S,10,1> c; c.template head<3>()=Mp.template block<3,1>(0,3); c.template segment<4>(3)=qmul<S>(qa,qb); c.template tail<3>()=Mp.template block<3,1>(0,4); return G<S>(c); }
   template<class J,class GJ,class TJ,class MM> static GJ fromM(const GJ& X,const TJ& d,const MM& Mp){ Mat<J,4,1> q=X.coeffs().template segment<4>(3); Mat<J,3,1> w=d.coeffs().template segment<3>(3); Mat<J,10,1> c; c.template head<3>()=Mp.template block<3,1>(0,3); c.template segment<4>(3)=qpert<J>(q,w); c.template tail<3>()=Mp.template block<3,1>(0,4); return GJ(c); }
+  template<class S,class XX> static S erotsq(const XX& X){ return X.coeffs().template segment<3>(3).squaredNorm(); } template<class S,class XX> static S ew(const XX& X){ return X.coeffs()(6); }
   template<class S,class X> static S rotsq(const X& t){ return t.coeffs().template segment<3>(3).squaredNorm(); } enum{A=5}; template<class S,class X> static Mat<S,A> alg(const X& t){ Mat<S,A> m=hat<S>(t).template topLeftCorner<A,A>(); return m; } static const char* nm(){return "SE_2_3";} enum{H=5,P=3,DoF=9,Rep=10};
   
   template<class R> static G<typename R::S> make(R& rec,const std::string& p,int w){ typedef typename R::S S; Mat<S,10,1> c; c.template head<3>()=vec3(rec,p,WV[w]); c.template segment<4>(3)=unitq(rec,p,w); c.template tail<3>()=vec3(rec,p+"v",WV[(w+1)%4]); return G<S>(c); }
@@ -129,6 +134,7 @@ struct SGal3t { template<class S> using G=manif::SGal3<S>; template<class S> usi
   template<class R> static T<typename R::S> maketc(R& rec,int k){ typedef typename R::S S; Mat<S,10,1> c; c.template head<3>()=cv(rec,k); c.template segment<3>(3)=cv(rec,(k+2)%4); c.template segment<3>(6)=cw(rec,k); c(9)=rec.rat(3-k,4); return T<S>(c); }
   template<class S,class GA,class GB,class MM> static G<S> assemble(const GA& A,const GB& B,const MM& Mp){ Mat<S,4,1> qa=A.coeffs().template segment<4>(3), qb=B.coeffs().template segment<4>(3); Mat<S,11,1> c; c.template head<3>()=Mp.template block<3,1>(0,4); c.template segment<4>(3)=qmul<S>(qa,qb); c.template segment<3>(7)=Mp.template block<3,1>(0,3); c(10)=Mp(3,4); return G<S>(c); }
   template<class J,class GJ,class TJ,class MM> static GJ fromM(const GJ& X,const TJ& d,const MM& Mp){ Mat<J,4,1> q=X.coeffs().template segment<4>(3); Mat<J,3,1> w=d.coeffs().template segment<3>(6); Mat<J,11,1> c; c.template head<3>()=Mp.template block<3,1>(0,4); c.template segment<4>(3)=qpert<J>(q,w); c.template segment<3>(7)=Mp.template block<3,1>(0,3); c(10)=Mp(3,4); return GJ(c); }
+  template<class S,class XX> static S erotsq(const XX& X){ return X.coeffs().template segment<3>(3).squaredNorm(); } template<class S,class XX> static S ew(const XX& X){ return X.coeffs()(6); }
   template<class S,class X> static S rotsq(const X& t){ return t.coeffs().template segment<3>(6).squaredNorm(); } enum{A=5}; template<class S,class X> static Mat<S,A> alg(const X& t){ Mat<S,A> m=hat<S>(t).template topLeftCorner<A,A>(); return m; } static const char* nm(){return "SGal3";} enum{H=5,P=3,DoF=10,Rep=11};
   
   template<class R> static G<typename R::S> make(R& rec,const std::string& p,int w){ typedef typename R::S S; Mat<S,11,1> c; c.template head<3>()=vec3(rec,p,WV[w]); c.template segment<4>(3)=unitq(rec,p,w); c.template segment<3>(7)=vec3(rec,p+"v",WV[(w+1)%4]); c(10)=rec.var(p+"t",0.7+0.4*w); return G<S>(c); }
@@ -142,6 +148,7 @@ template<int N> struct Rnt { template<class S> using G=manif::Rn<S,N>; template<
   template<class R> static T<typename R::S> maketc(R& rec,int k){ typedef typename R::S S; Mat<S,N,1> c; for(int i=0;i<N;i++) c(i)=rec.rat(KW[k][i%3]-i,10); return T<S>(c); }
   template<class S,class GA,class GB,class MM> static G<S> assemble(const GA& A,const GB& B,const MM& Mp){ Mat<S,N,1> c; for(int i=0;i<N;i++) c(i)=Mp(i,N); return G<S>(c); }
   template<class J,class GJ,class TJ,class MM> static GJ fromM(const GJ& X,const TJ& d,const MM& Mp){ Mat<J,N,1> c; for(int i=0;i<N;i++) c(i)=Mp(i,N); return GJ(c); }
+  template<class S,class XX> static S erotsq(const XX&){ return S(1.0); } template<class S,class XX> static S ew(const XX&){ return S(1.0); }
   template<class S,class X> static S rotsq(const X&){ return S(0.0); } enum{A=N+1}; template<class S,class X> static Mat<S,A> alg(const X& t){ return hat<S>(t); } static const char* nm(){ static std::string s="R"+std::to_string(N); return s.c_str(); } enum{H=N+1,P=N,DoF=N,Rep=N};
   
   template<class R> static G<typename R::S> make(R& rec,const std::string& p,int w){ typedef typename R::S S; Mat<S,N,1> c; for(int i=0;i<N;i++) c(i)=rec.var(p+"x"+std::to_string(i),WV[w][i%3]+0.125*i); return G<S>(c); }
@@ -162,6 +169,9 @@ template<class Tg,class S,class GA,class GB> typename Tg::template G<S> hcompose
 }
 // hypothesis: rotation magnitude of a tangent below pi (injectivity radius / the property's stated domain)
 template<class Tg,class R,class T> void assume_rot_below_pi(R& rec, const T& t){ typedef typename R::S S; S r=Tg::template rotsq<S>(t); if(!(Tg::DoF==Tg::P && Tg::H==Tg::P+1 && Tg::Rep==Tg::P)) rec.assume(r, 0, S(9.869604)); } // 9.869604 < pi^2
+// element-side hypotheses: rotation part not the identity (vector / imaginary part non-zero), rotation angle not exactly pi (w != 0)
+template<class Tg,class R,class X> void assume_elem_rot_positive(R& rec,const X& x){ typedef typename R::S S; if(!(Tg::DoF==Tg::P && Tg::H==Tg::P+1 && Tg::Rep==Tg::P)) rec.assume(S(0.0),0,Tg::template erotsq<S>(x)); }
+template<class Tg,class R,class X> void assume_not_half_turn(R& rec,const X& x){ typedef typename R::S S; if(!(Tg::DoF==Tg::P && Tg::H==Tg::P+1 && Tg::Rep==Tg::P)) rec.assume(Tg::template ew<S>(x),3,S(0.0)); }
 template<class Tg,class R,class T> void assume_rot_positive(R& rec, const T& t){ typedef typename R::S S; S r=Tg::template rotsq<S>(t); if(!(Tg::DoF==Tg::P && Tg::H==Tg::P+1 && Tg::Rep==Tg::P)) rec.assume(S(0.0), 0, r); }
 } // namespace gx
 #ifdef ZERO_ROT
